@@ -38,7 +38,7 @@ func (C14) Meta() core.Meta {
 		},
 		Real:       []string{"influxql parser, Clone, CloneExpr, in-place rewrites, Reduce, RewriteFields, evaluation, printers (instrumented copy of the working tree)"},
 		Stub:       []string{"meta store (simschema.Mapper)", "point valuer / clock (simschema.Valuer)"},
-		ProbeNames: []string{"clone", "clone-expr", "poke", "inplace", "derived", "exhaustive-sites", "has-target", "has-subquery", "has-regex-source", "mapper-fault-during-derived", "result-poked"},
+		ProbeNames: []string{"clone", "clone-expr", "poke", "inplace", "derived", "exhaustive-sites", "has-target", "has-subquery", "has-regex-source", "mapper-fault-during-derived", "result-poked", "derived-result-kept"},
 		FaultNames: []string{"mapper-error"},
 	}
 }
@@ -51,7 +51,7 @@ func (C14) Runs(tier string) uint64 {
 }
 
 var inplaceOps = []string{"RewriteRegexConditions", "RewriteDistinct", "RewriteTimeFields", "SetTimeRange", "RewriteMutate", "RewriteExprMutate", "GroupByInterval"}
-var derivedOps = []string{"Reduce", "RewriteFields", "String", "ColumnNames", "Names", "AliasNames", "RequiredPrivileges", "WalkFunc", "EvalFields", "EvalType", "ConditionExpr", "ReduceExpr", "FieldDimensions", "HasWildcard", "ExprNames", "FieldExprByName", "Normalize", "GroupByOffset", "Measurements", "Eval", "EvalBool", "TypeValuerEval", "BinaryExprName", "CloneExpr", "HasTimeExpr", "TimeAscending"}
+var derivedOps = []string{"Reduce", "RewriteFields", "String", "ColumnNames", "Names", "AliasNames", "RequiredPrivileges", "WalkFunc", "EvalFields", "EvalType", "ConditionExpr", "ReduceExpr", "FieldDimensions", "HasWildcard", "ExprNames", "FieldExprByName", "Normalize", "GroupByOffset", "Measurements", "Eval", "EvalBool", "TypeValuerEval", "BinaryExprName", "CloneExpr", "HasTimeExpr", "TimeAscending", "RewriteFieldsNilMapper"}
 
 func (C14) NewPlan(r *core.Rand, tier string, i uint64) interface{} {
 	p := &C14Plan{}
@@ -464,7 +464,17 @@ func (C14) Exec(pi interface{}) *core.RunResult {
 			if s, ok := r.node.(*influxql.SelectStatement); ok {
 				op := Op{Name: strings.TrimPrefix(name, "derived:"), Arg: stp.Arg, Keep: true}
 				var repl *influxql.SelectStatement
-				pan = core.Guard(func() { _, repl = ctx.applySelectOp(s, op) })
+				if op.Name == "RewriteFieldsNilMapper" {
+					// a nil mapper is the caller's mistake; whatever happens, the receiver must not be
+					// handed back as the "rewritten" statement
+					pan = core.Guard(func() { repl, _ = s.RewriteFields(nil) })
+					if pan != nil {
+						pan = nil // not this property's business; the history goes on
+						repl = nil
+					}
+				} else {
+					pan = core.Guard(func() { _, repl = ctx.applySelectOp(s, op) })
+				}
 				res.Probe("derived")
 				if ctx.mapper.Fired["mapper-error"] > 0 {
 					res.Probe("mapper-fault-during-derived")
@@ -479,6 +489,10 @@ func (C14) Exec(pi interface{}) *core.RunResult {
 							recheck(i, "poke-result-of-"+op.Name+" "+s.path, -1)
 						}
 					}
+				} else if repl != nil && pan == nil && len(roots) < 8 && len(res.Violations) == 0 {
+					// the derived statement joins the cache: later steps clone and mutate it too
+					roots = append(roots, &astRoot{node: repl, lines: core.Lines(repl), label: fmt.Sprintf("result#%d of %s", len(roots), op.Name)})
+					res.Probe("derived-result-kept")
 				}
 			} else {
 				recheck(i, name, -1)
